@@ -105,4 +105,11 @@ pub fn install(frequency: u64) {
 
 pub fn remove() {
     divan::verif::remove_virtual_tsc();
+    divan::verif::remove_virtual_os();
+}
+
+/// Installs the same source in place of the OS clock: one tick is one nanosecond.
+pub fn install_os() {
+    divan::verif::remove_virtual_tsc();
+    divan::verif::install_virtual_os(read);
 }
